@@ -39,3 +39,4 @@ def run(repo, res, tier):
     from .. import entryrules as _er18, hookrules as _hk18
     _er18.rule_f1(repo, res, "__init__")
     _hk18.rule_ctor_default(repo, res)
+    _hk18.rule_hook_call(repo, res)
